@@ -62,6 +62,10 @@ PlainSeeds0 == {[u |-> u, o |-> o, tpl |-> <<>>, repl |-> FALSE] : u \in Pats,
                   o \in {Plain, [Plain EXCEPT !.word = TRUE], [Plain EXCEPT !.inv = TRUE], [Plain EXCEPT !.ci = TRUE],
                          [Plain EXCEPT !.line = TRUE], [Plain EXCEPT !.crlf = TRUE]}}
 PlainOf(sd) == {sd}
+\* thorough tier: option combinations, every content of length <= 4
+PlainSeedsDeep == {sd \in {[u |-> u, o |-> o, tpl |-> <<>>, repl |-> FALSE] : u \in Pats,
+                          o \in {Opt(ci, w, l, cr, inv) : ci \in BOOLEAN, w \in BOOLEAN, l \in BOOLEAN, cr \in BOOLEAN, inv \in BOOLEAN}}
+                    : ~(sd.o.word /\ sd.o.line) /\ ~(sd.o.crlf /\ sd.u = ULit(SCR))}
 \* (under --crlf a literal CR is rejected by the matcher builder, see C11: no such scenario)
 PlainSeeds == {sd \in PlainSeeds0 : ~(sd.o.crlf /\ sd.u = ULit(SCR))}
 
